@@ -12,7 +12,8 @@ import models
 from engine import VAdt, VBool, VInt, VOpaque, VRef, VSeq, VStruct, VTuple, VUnit, VMap, Event, base_ty, vcopy
 from specutil import is_variant, run_reference, vid_of
 
-N = 4
+import os
+N = 5 if os.environ.get("MIRSYM_TIER") == "thorough" else 4
 LABELS = 4
 
 
